@@ -258,7 +258,7 @@ def run(tier, seed, replay=None):
                 continue
         idmap = {}
         to_tree(ast, cids, fids, [0], idmap)
-        inv = {v: k for k, v in idmap.items()}
+        inv = {v: k for k, v in idmap.items() if k != '_keep'}
         if x not in inv:
             continue
         Rn = Identifier(parts=['R'])
